@@ -7,9 +7,13 @@ git add -A; git commit -qm "wip before integrating $br" 2>/dev/null || true
 if ! git merge --no-edit -q $br >/tmp/merge.out 2>&1; then
   if ! git diff --name-only --diff-filter=U | grep -q .; then echo "MERGE FAILED:"; cat /tmp/merge.out; exit 1; fi
 fi
+for f in $(git diff --name-only --diff-filter=U); do
+  case $f in seeded/*|evidence/*|known_findings.json|MANIFEST.json) git checkout --theirs -- $f; git add $f;; esac
+done
+if git diff --name-only --diff-filter=U | grep -q .; then echo "CONFLICTS:"; git diff --name-only --diff-filter=U; exit 1; fi
 /venv/bin/python harness/genindex.py --findings
 git add -A
-if git diff --name-only --diff-filter=U | grep -q .; then echo "CONFLICTS:"; git diff --name-only --diff-filter=U; exit 1; fi
+if grep -rlE "^(<<<<<<<|>>>>>>>) " harness known_findings.d seeded lean/SnaxVerif DESIGN.md 2>/dev/null | grep -q .; then echo "CONFLICTS:"; git diff --name-only --diff-filter=U; exit 1; fi
 git commit -q --no-edit 2>/dev/null || true
 while [ $# -ge 3 ]; do
   fix=$1; msg=$2; fid=$3; shift 3
